@@ -158,6 +158,14 @@ func contracts(c *vlib.Ctx, s *scen, shape string) {
 			signInputs(t, "A")
 			return true
 		}
+		s.tamper["renewal-swap-new"] = func() bool {
+			// the new contract is exchanged for another one that renter and host have both signed (an earlier proposal,
+			// say), the renewal signatures stay as they are: they must bind the contract they were made for
+			ren.NewContract.RenterOutput.Address = addrC
+			signContract(&ren.NewContract, "R", "H")
+			signInputs(t, "A")
+			return true
+		}
 		s.tamper["renew-other-keys"] = func() bool {
 			// the new contract names another renter key (and that key signs it)
 			ren.NewContract.RenterPublicKey = k.PK("X")
